@@ -60,6 +60,22 @@ class CassetteFile(VirtualFileContainer):
             if not filenames or coco_file.name in filenames:
                 files.append(coco_file)
 
+    def starts_with_header(self):
+        """
+        Returns True if the buffer opens the way a tape stream does: optional blank
+        space and leader bytes, followed by a complete header block (15 bytes of
+        file information with a correct checksum, closed by $55).
+
+        :return: True if the first block on the tape is a header block
+        """
+        pointer = 0
+        while pointer < len(self.buffer) and self.buffer[pointer] in [0x00, 0x55]:
+            pointer += 1
+        block = self.buffer[pointer - 1:pointer + 20]
+        if pointer == 0 or len(block) < 21 or block[:4] != [0x55, 0x3C, 0x00, 0x0F]:
+            return False
+        return block[19] == sum(block[3:19]) & 0xFF and block[20] == 0x55
+
     def add_file(self, coco_file):
         """
         Adds a file to the buffer of the cassette data.
